@@ -237,10 +237,25 @@ def gen_case(tp, tier):
                             ev[k] = {'pan': 0.5, 'out': 2}[k]
             case['redef'] = [v0, v1, at]
         return case
-    return {'kind': kind, 'pats': [gen_pat(tp)
+    case = {'kind': kind, 'pats': [gen_pat(tp)
                                    for _ in range(1 + tp.draw(2))],
             'knobs': kn, 'clock': tp.choice(['sys', 'tempo']),
             'mute': False}
+    if tp.draw(4) == 0:
+        # one player is reset between two of its wake-ups: it starts the
+        # pattern again from its first event at the next one (players and
+        # the resetting routine share SystemClock: ordered by logical time)
+        i = tp.draw(len(case['pats']))
+        p = case['pats'][i]
+        if 'mono' not in repr(p):
+            times = sorted(wakes(p))
+            gaps = [(a, b) for a, b in zip(times, times[1:])
+                    if b - a >= 0.1]
+            if gaps:
+                a, b = tp.choice(gaps)
+                case['reset'] = {'pat': i, 'at': (a + b) / 2}
+                case['clock'] = 'sys'
+    return case
 
 
 def shrink_candidates(case):
@@ -266,12 +281,21 @@ def shrink_candidates(case):
                         c['events'][i].pop(kk, None)
                 yield c
     else:
+        if case.get('reset'):
+            c = copy.deepcopy(case)
+            del c['reset']
+            yield c
+        rs = case.get('reset')
         for i in range(len(case['pats']) - 1, -1, -1):
-            if len(case['pats']) > 1:
+            if len(case['pats']) > 1 and not (rs and rs['pat'] == i):
                 c = copy.deepcopy(case)
                 del c['pats'][i]
+                if rs and i < rs['pat']:
+                    c['reset']['pat'] -= 1
                 yield c
         for i, p in enumerate(case['pats']):
+            if rs and rs['pat'] == i:
+                continue     # (the reset instant is tied to its timeline)
             for sub in sub_pats(p):
                 c = copy.deepcopy(case)
                 c['pats'][i] = sub
@@ -585,11 +609,22 @@ def program(case, main, lookups):
                         e2[kk] = v
                     e2.play()
         else:
+            players = []
             for p in case['pats']:
                 if clock is not None:
-                    build_pattern(p).play(clock, 0)
+                    players.append(build_pattern(p).play(clock, 0))
                 else:
-                    build_pattern(p).play()
+                    players.append(build_pattern(p).play())
+            rs = case.get('reset')
+            if rs:
+                yield rs['at']
+                try:
+                    players[rs['pat']].reset()
+                except RuntimeError as e:
+                    # (a StopStream thrown into a generator that does not
+                    # handle it comes back as RuntimeError, PEP 479: what a
+                    # reset does then is not specified by the property)
+                    lookups.append({'reset_raised': type(e).__name__})
         yield 0
     return sstm.Routine(body)
 
@@ -676,8 +711,8 @@ def check_bundles(world, got, case, latency, viol, stats, rel, lo=1000,
                     'event-played-again', 0) + 1
     else:
         _CACHE.clear()
-        for p in case['pats']:
-            for t, ev in expand_cached(p):
+        for i, p in enumerate(case['pats']):
+            for t, ev in timeline(case, i, p)[0]:
                 if ev is None:
                     continue            # silent filler (Pdelta)
                 e, r = expected_msgs(ev, T0 + t, latency)
@@ -797,6 +832,42 @@ def check_bundles(world, got, case, latency, viol, stats, rel, lo=1000,
 
 
 _CACHE = {}
+
+
+def wakes(p):
+    """Offsets at which the player of pattern p wakes up: its events (rests
+    and silent fillers included), the end of every stream that a Ppar merges,
+    and the end of the whole stream."""
+    k = p[0]
+    evs, tot = expand(p)
+    if k == 'par':
+        out = set()
+        for sub in p[1]:
+            out |= wakes(sub)
+        return out | {tot}
+    if k == 'delta':
+        return {0.0} | {p[1] + t for t in wakes(p[2])} | {tot}
+    if k == 'dur':
+        return {t for t in wakes(p[2]) if t < tot} | {t for t, _ in evs} \
+            | {tot}
+    return {t for t, _ in evs} | {tot}
+
+
+def timeline(case, i, p):
+    """(offset, event) list and total duration of top-level pattern i; with a
+    player reset at offset T the stream starts again from its first event at
+    the player's next wake-up after T."""
+    evs, tot = expand_cached(p), expand(p)[1]
+    rs = case.get('reset')
+    if not rs or rs['pat'] != i:
+        return evs, tot
+    later = sorted(t for t in wakes(p) if t > rs['at'] + 1e-9)
+    if not later:
+        return evs, tot
+    t1 = later[0]
+    out = [(t, ev) for t, ev in evs if t <= rs['at'] + 1e-9]
+    out += [(t1 + t, None if ev is None else dict(ev)) for t, ev in evs]
+    return out, t1 + tot
 
 
 def expand_cached(p):
@@ -930,6 +1001,12 @@ def run_case(case, tape, ctx):
         viol.add('C14-1', 'nrt-error-logged', str(nrt['errors'][0]))
     if W.process_raised(viol, 'C14-1', nrt):
         return W.result(viol, agg)
+    if any('reset_raised' in x for x in nrt['lookups'] + rt.get(
+            'lookups', [])):
+        stats['reset-raised-no-verdict'] = 1
+        return W.result(viol, agg, extra_probes=stats)
+    if case.get('reset'):
+        stats['player-reset'] = 1
     got = [(b[0], b[1]) for b in nrt['score'] if len(b) == 2]
     check_bundles('nrt', got, case, 0.0, viol, stats, 1e-9)
     # key lookups
@@ -945,7 +1022,8 @@ def run_case(case, tape, ctx):
                              f'documented chain gives {want}')
     else:
         # the players end after the longest top-level pattern
-        tot = max(expand(p)[1] for p in case['pats'])
+        tot = max(timeline(case, i, p)[1]
+                  for i, p in enumerate(case['pats']))
         if abs(nrt['elapsed'] - (T0 + tot)) > 1e-9 * max(1.0, tot):
             viol.add('C14-4', 'total-duration',
                      f'the players ended at {nrt["elapsed"]}, start + total '
